@@ -120,6 +120,22 @@ def gen_weaver(rng):
     if "grid" in op and rng.random() < 0.25:
         op["bad_ends"] = True
     c["ops"] = [op]
+    if rng.random() < 0.35:
+        # the request made of an object with a history: the series was re-sampled (its grid is no longer the reference's
+        # grid) and then went through an operation whose effect depends on the grid; the new grid is defined by the
+        # series the object holds NOW
+        pre = [W.gen_reshape_op(rng, ["interp", "recreate"])]
+        if "grid" in pre[0]:
+            pre[0] = {"op": "interp", "method": "linear", "n": rng.randint(5, 24)}
+        pre[0]["method"] = "linear" if pre[0]["op"] == "interp" else pre[0].get("method")
+        if pre[0].get("method") is None:
+            pre[0].pop("method", None)
+        for _ in range(rng.randint(1, 2)):
+            pre.append(W.gen_domain_op(rng, ["append", "repeat", "trunc_i", "trunc_v", "shift_x", "scale_x"]))
+        op["target"] = True                 # the operation the oracle looks at (earlier ones may be skipped at run time)
+        c["ops"] = pre + [op]
+        c["pre"] = len(pre)
+        return c
     if rng.random() < 0.2:
         # a bursty non-negative series (idle most of the time); the application runs with warnings as errors, catches
         # whatever surfaces and resamples linearly instead
@@ -269,11 +285,17 @@ def oracle(c, io):
     steps = io["steps"]
     if not c["ops"]:
         return None
-    op = c["ops"][0]
-    st = steps[1] if len(steps) > 1 else None
-    if st is None:
+    k = 0
+    if c.get("pre"):
+        ks = [i for i, o in enumerate(c["ops"]) if o.get("target")]
+        if not ks or len(steps) <= ks[0] + 1 or any("err" in t for t in steps[1:ks[0] + 1]):
+            return None
+        k = ks[0]
+    op = c["ops"][k]
+    st = steps[k + 1]
+    if st is None or st.get("skipped"):
         return None
-    before = steps[0]["state"]
+    before = steps[k]["state"]
     if op["method"] not in METHODS:
         if st.get("err") != "ValueError":
             return f"Weaver.interpolate with unknown method not rejected with ValueError: {st.get('err')}"
@@ -308,8 +330,8 @@ def tags(c, io, mo):
                 + (["default-kwargs"] if "kw" in c else []))
     if not c["ops"]:
         return ["weaver", "skipped"]
-    op = c["ops"][0]
-    return ["weaver", f"method={op['method']}", "n" if "n" in op else ("bad-ends" if op.get("bad_ends") else "grid")]
+    op = ([o for o in c["ops"] if o.get("target")] or [c["ops"][0]])[0]
+    return ["weaver"] + (["with-history"] if c.get("pre") else []) + [f"method={op.get('method')}", "n" if "n" in op else ("bad-ends" if op.get("bad_ends") else "grid")]
 
 
 def nontrivial_key(c, io, mo):
